@@ -180,6 +180,7 @@ int main(int argc, char** argv) {
     try { var it = iter_init(v); while (it != Terminal && n < lim) { if (n) ev_s(","); item(it); n++; if (getwhile) get(v, $I(0)); it = iter_next(v, it); } }
     catch (e) { exc = exc_name(e); }
     ev_s("]"); ev_int("fwdn", (long long)n);
+    volatile size_t fwdcount = n;
     n = 0;
     ev_key("bwd"); ev_s("[");
     try { var it = iter_last(v); while (it != Terminal && n < lim) { if (n) ev_s(","); item(it); n++; it = iter_prev(v, it); } }
@@ -251,13 +252,13 @@ int main(int argc, char** argv) {
       ev_s("]"); ev_int("hascpy", has); ev_str("cpyexc", ax);
       /* show: a Range / Slice of Ints lists its items between brackets, in iteration order */
       ev_key("shown"); ev_s("["); has = 0;
-      if (!nofail && unit == 1 && (ty == Range || ty == Slice)) {
+      if (!nofail && (ty == Range || ty == Slice) && fwdcount < lim) {          /* (a runaway forward walk is not shown: show would not return either) */
         var t = new(String, $S("")); int ok = 1;
         try { show_to(v, t, 0); } catch (e) { ok = 0; }
         char* b = ok ? strchr(c_str(t), '[') : NULL; char* e2 = b ? strrchr(b, ']') : NULL;
         if (b && e2) {
           int tuples = 0; for (char* q = b + 1; q < e2; q++) if (*q == '(' || *q == '<' || *q == '[') tuples = 1;
-          if (!tuples) { has = 1; int k = 0; char* q = b + 1; while (q < e2) { char* r; long long x = strtoll(q, &r, 10); if (r == q) { has = 0; break; } if (k++) ev_s(","); ev_i(x); q = r; while (q < e2 && (*q == ',' || *q == ' ')) q++; } }
+          if (!tuples) { has = 1; int k = 0; char* q = b + 1; while (q < e2) { char* r; long long x = strtoll(q, &r, 10); if (r == q) { has = 0; break; } if (k++) ev_s(","); ev_i(unscale(x)); q = r; while (q < e2 && (*q == ',' || *q == ' ')) q++; } }
         }
       }
       ev_s("]"); ev_int("hasshown", has); }
